@@ -725,3 +725,17 @@ mut("finalize_inputs_under_version_read_guard", ["C09"], "LCK-5", file="src/vers
 
         self.release_version(current_version_node);
 """, note="finalize_compaction_inputs takes the node's write lock while pick_compaction still holds its read guard: self-deadlock")
+
+# ---- OWN-8 / LCK-6
+mut("reuse_file_number_always_decrements", ["C10"], "OWN-8", file="src/versioning/version_set.rs",
+    old="""        if self.curr_file_number == file_number {
+            self.curr_file_number -= 1;
+        }""",
+    new="""        if self.curr_file_number >= file_number {
+            self.curr_file_number -= 1;
+        }""", note="a number handed back late is subtracted although newer numbers were issued: duplicate file numbers")
+mut("mark_file_number_used_can_lower_counter", ["C10"], "OWN-8", file="src/versioning/version_set.rs",
+    old="""        if self.curr_file_number <= file_number {
+            self.curr_file_number = file_number;
+        }""",
+    new="""        self.curr_file_number = file_number;""")
